@@ -73,7 +73,12 @@ class FakeSock:
         if ev[0] == 0:
             k = max(1, min(ev[1], len(data)))
             self.wire += data[:k]; return k
-        raise socket.error(errno.EPIPE, "broken pipe")
+        # a failing write: EPIPE by default, or the errno the event names (EIO, ENOSPC, EAGAIN on a full non-blocking pipe, ...): every
+        # one of them ends the stream (EOFError) - the property promises tolerance while READING only
+        code = ev[1] if len(ev) > 1 else errno.EPIPE
+        if code == errno.EAGAIN:
+            raise BlockingIOError(code, real_os.strerror(code))
+        raise OSError(code, real_os.strerror(code))
 
     def shutdown(self, how): pass
     def close(self): self.closed_ = True
@@ -391,7 +396,7 @@ def gen_case(r, big):
     elif c < 0.35:
         cs["revs"].insert(r.randint(0, len(cs["revs"])), [r.choice([3, 4])])
     elif c < 0.42:
-        cs["wevs"].insert(r.randint(0, len(cs["wevs"])), [1])
+        cs["wevs"].insert(r.randint(0, len(cs["wevs"])), [1, r.choice([errno.EPIPE, errno.EIO, errno.ENOSPC, errno.EAGAIN, errno.ECONNRESET])])
     elif c < 0.47:
         cs["corrupt"] = [r.randrange(10**6), r.randrange(256)]
     if cs["rkind"] == "pipe" and r.random() < 0.7:
@@ -453,7 +458,7 @@ def gen_session(r):
         revs.insert(r.randrange(len(revs) + 1), [r.choice([3, 4])])       # a read error / end of stream event
     wevs = gen_wevs(r)
     if r.random() < 0.35:
-        wevs.insert(r.randrange(len(wevs) + 1), [1])                       # a write error
+        wevs.insert(r.randrange(len(wevs) + 1), [1, r.choice([errno.EPIPE, errno.EIO, errno.ENOSPC, errno.EAGAIN, errno.ECONNRESET])])   # a write error, of any kind
     ops = []
     for _ in range(r.choice([2, 4, 6, 9])):
         ops.append([0, payload(r, r.choice([0, 1, 7, 100, 3001] + ([64000] if r.random() < 0.1 else [])))] if r.random() < 0.45 else [1])
